@@ -27,12 +27,59 @@ ASSUMPTIONS = [
     "thorough tier additionally runs chains against scripted loopback TLS servers (family live)",
     "family live: a start URL or a redirect target may write the letters of a host name in another case (LOCALHOST, Localhost, localhosT); host names are "
     "case-insensitive (RFC 3986 3.2.2), so it is the same host - the pin made under one spelling holds for every other - while the request line may carry either spelling",
+    "a redirect target may carry raw UTF-8 next to percent-escapes (an IRI); the request for it names the same resource when it is the target as written or "
+    "its URI form (RFC 3987 3.1: non-ASCII characters as the escapes of their UTF-8 bytes; hex digits of escapes in either case) - any other change of an "
+    "escape (%20 -> %2520, %2F -> /) requests another resource; the scripted servers answer by resource",
 ]
 
 _CLIENT = None
 POOL = ["gemini://a/", "gemini://b/", "gemini://c/x", "gemini://d:1966/", "gemini://a/y?q", "gemini://e/", "gemini://a/?p=1", "gemini://a/?p=2", "gemini://c/x/", "gemini://c/./x"]
 ODD_TARGETS = ["", "/relative", "relative/path", "http://a/", "https://b/x", "titan://a/up;size=0", "GEMINI://a/", "gemini:/a", "gemini:a",
                "gemini://", "gemini://u@a/", "gemini://a/#frag", "gemini://a/" + "p" * 1100, "//a/", "gemini://a:99999/", "mailto:x@y", " gemini://a/"]
+
+# Redirect targets as servers in the wild write them: raw UTF-8 (an IRI, RFC 3987) next to percent-escapes that are already
+# there (a space, an escaped "/", an escaped "%", the UTF-8 escape of a letter).  The first MIXED_N have both; the rest are the
+# controls (escapes only, raw characters only).  No two of them name the same resource (see same_resource).
+IRI_POOL = ["gemini://a/caf\u00e9%20menu/page", "gemini://a/a%20b/search?q=\u00fcber", "gemini://b/%C3%A9t\u00e9", "gemini://c/dir%2Ffile/\u65e5\u672c",
+            "gemini://a/x?q=100%25&n=\u00f1", "gemini://d:1966/\U0001f600%20/", "gemini://b/na\u00efve%20caf%C3%A9?lang=fr%2Dca&t=\u00e7a", "gemini://e/%e2%82%ac/\u20ac",
+            "gemini://a/a%20b/page", "gemini://a/caf\u00e9/page", "gemini://c/%41%2f%25?x=%3F"]
+MIXED_N = 8
+IRI_TAILS = ["/caf\u00e9%20menu", "/a%20b?q=\u00fcber", "/%C3%A9t\u00e9", "/d%2Ff/\u65e5\u672c", "?q=100%25&n=\u00f1", "/\U0001f600%20x/", "/%e2%82%ac=\u20ac"]
+_HEX = "0123456789abcdefABCDEF"
+
+
+def uri_form(u: str) -> str:
+    """the URI an IRI maps to (RFC 3987 3.1: every character outside ASCII becomes the percent-escapes of its UTF-8 bytes) with the
+    hexadecimal digits of the escapes in upper case (RFC 3986 6.2.2.1).  Nothing else changes: an escape that is there stays ONE
+    escape (%20 is not %2520 and not a space, %2F is not "/").  Two request URLs with the same uri_form name the same resource."""
+    out, i = [], 0
+    while i < len(u):
+        ch = u[i]
+        if ch == "%" and i + 2 < len(u) and u[i + 1] in _HEX and u[i + 2] in _HEX:
+            out.append(u[i:i + 3].upper())
+            i += 3
+            continue
+        out.append(ch if ord(ch) < 128 else "".join("%%%02X" % b for b in ch.encode("utf-8", "surrogatepass")))
+        i += 1
+    return "".join(out)
+
+
+def same_resource(a, b) -> bool:
+    """the client may put a redirect target on the request line as the server wrote it or in its URI form"""
+    if isinstance(a, str):
+        return a == b or uri_form(a) == uri_form(b)
+    return len(a) == len(b) and all(same_resource(x, y) for x, y in zip(a, b))
+
+
+def node_of(graph, url):
+    """what the scripted servers answer to a request for `url`: the node that names the same resource"""
+    e = graph.get(url)
+    if e is None and ("%" in url or not url.isascii()):
+        f = uri_form(url)
+        for k, v in graph.items():
+            if uri_form(k) == f:
+                return v
+    return e
 
 
 class Graph(Family):
@@ -51,9 +98,27 @@ class Graph(Family):
             count += 1
             if count >= n // 2:
                 break
-        for _ in range(n - count):
-            k = rng.randint(1, len(POOL))
-            urls = rng.sample(POOL, k)
+        # redirect targets that mix raw UTF-8 with percent-escapes (and the controls that have only one of the two): one hop, two
+        # hops through two such targets, a loop between two of them, a chain one hop too long, following switched off
+        wit = []
+        for t in IRI_POOL:
+            for mx, code in ((1, 30), (1, 31), (5, 30), (5, 31)):
+                wit.append({"max": mx, "start": "gemini://a/", "graph": {"gemini://a/": ["r", code, t], t: ["f", 20]}, "follow": True})
+            wit.append({"max": 3, "start": "gemini://a/", "graph": {"gemini://a/": ["r", 30, t], t: ["f", 20]}, "follow": False})
+            wit.append({"max": 3, "start": t, "graph": {t: ["r", 31, "gemini://a/"], "gemini://a/": ["f", 20]}, "follow": True})
+        for t1, t2 in itertools.permutations(IRI_POOL, 2):
+            fwd = {"gemini://a/": ["r", 30, t1], t1: ["r", 31, t2], t2: ["f", 20]}
+            wit.append({"max": 2, "start": "gemini://a/", "graph": fwd, "follow": True})
+            if IRI_POOL.index(t1) < MIXED_N <= IRI_POOL.index(t2) or IRI_POOL.index(t1) + 1 == IRI_POOL.index(t2):
+                wit.append({"max": 1, "start": "gemini://a/", "graph": fwd, "follow": True})
+                wit.append({"max": 4, "start": "gemini://a/", "graph": {"gemini://a/": ["r", 30, t1], t1: ["r", 31, t2], t2: ["r", 30, t1]}, "follow": True})
+        for c in self.share(wit):
+            yield c
+            count += 1
+        for i in range(n - count):
+            pool = POOL if i % 6 else IRI_POOL + POOL[:5]
+            k = rng.randint(1, len(pool))
+            urls = rng.sample(pool, k)
             g = {}
             for u in urls:
                 r = rng.random()
@@ -62,7 +127,7 @@ class Graph(Family):
                 elif r < 0.27:
                     g[u] = ["e"]
                 elif r < 0.85:
-                    g[u] = ["r", rng.choice([30, 31, 39]), rng.choice(urls if rng.random() < 0.8 else POOL)]
+                    g[u] = ["r", rng.choice([30, 31, 39]), rng.choice(urls if rng.random() < 0.8 else pool)]
                 else:
                     g[u] = ["r", rng.choice([30, 31]), rng.choice(ODD_TARGETS)]
             yield {"max": rng.randint(0, 6), "start": rng.choice(urls), "graph": g, "follow": rng.random() < 0.9}
@@ -76,7 +141,7 @@ class Graph(Family):
 
         async def fake_single(url: str):
             conns.append(url)
-            e = graph.get(url)
+            e = node_of(graph, url)
             if e is None or e[0] == "e":
                 raise ConnectionError("stub: no such host")
             if e[0] == "f":
@@ -137,7 +202,7 @@ class Graph(Family):
         mx, g, start = case["max"], case["graph"], case["start"]
         conns, r = obs["conns"], obs["r"]
         if not case["follow"]:
-            if conns != [start]:
+            if not same_resource(conns, [start]):
                 return ("nofollow-conns", f"follow_redirects=False made connections {conns}")
             e = g.get(start)
             if e and e[0] == "r" and r != ["redirect", e[1], e[2]]:
@@ -160,11 +225,18 @@ class Graph(Family):
             u = e[2]
         e = g.get(u)
         if u not in chain and e is not None and e[0] == "f" and not (30 <= e[1] < 40) and len(chain) <= mx:
-            if r != ["final", e[1]] or conns != chain + [u]:
-                return ("not-followed", f"loop-free chain of {len(chain)} redirects (max {mx}) not followed to its final response: result {r}, connections {conns}")
+            if r != ["final", e[1]] or not same_resource(conns, chain + [u]):
+                return ("not-followed", f"loop-free chain of {len(chain)} redirects (max {mx}) not followed to its final response: result {r}, connections {conns}"
+                                        + ("" if len(conns) != len(chain) + 1 else
+                                           "".join(f"; hop {i + 1} was redirected to {w!r} and requested {c!r}, another resource" for i, (c, w) in enumerate(zip(conns, chain + [u]))
+                                                   if not same_resource(c, w))))
         if u in chain and r[0] != "error":
             return ("loop-not-reported", f"redirect loop returned {r}")
         return None
+
+    def same(self, expected, obs):
+        # the model puts every redirect target on the wire as it is written; its URI form names the same resource
+        return expected["r"] == obs["r"] and same_resource(obs["conns"], expected["conns"])
 
     def key(self, case, obs):
         return f"{obs['r'][0]}:{obs['r'][1] if obs['r'][0] == 'error' else ''}:hops={len(obs['conns'])}:follow={case['follow']}"
@@ -227,7 +299,7 @@ class Overlap(Family):
                 conns[j].append(url)
                 for _ in range(fetches[j]["lat"]):
                     await asyncio.sleep(0)
-                e = fetches[j]["graph"].get(url)
+                e = node_of(fetches[j]["graph"], url)
                 if e is None or e[0] == "e":
                     raise ConnectionError("stub: no such host")
                 if e[0] == "f":
@@ -328,6 +400,12 @@ class Live(Family):
                     {"peer": (k + 1) % 3, "host": hosts[k % 3], "path": "/h1?q=1", "cert": "rsa"},
                     {"peer": k % 3, "host": "localhost", "path": "/h2", "cert": "ec2", "spell": s1}]
             fixed.append({"max": 4, "follow": True, "hops": hops, "kind": "revisit-swap", "final": 20, "code": 30 + k % 2})
+        # redirect targets that mix raw UTF-8 with percent-escapes: the request line of every hop names the resource the redirect named
+        for k, tail in enumerate(IRI_TAILS):
+            hops = [{"peer": k % 3, "host": hosts[k % 3], "path": "/h0", "cert": "ec"},
+                    {"peer": (k + 1) % 3, "host": hosts[(k + 1) % 3], "path": "/h1" + tail, "cert": "rsa"},
+                    {"peer": (k + 2) % 3, "host": "localhost", "path": "/h2" + IRI_TAILS[(k + 3) % len(IRI_TAILS)], "cert": "ed"}]
+            fixed.append({"max": 3, "follow": True, "hops": hops[:2 + k % 2], "kind": "chain", "final": 20, "code": 30 + k % 2})
         for c in self.share(fixed):
             yield c
         for i in range(n):
@@ -367,6 +445,9 @@ class Live(Family):
             if kind == "drop":
                 case["drop_at"] = rng.randrange(nh)
             case["code"] = rng.choice([30, 31, 31])
+            if i % 5 == 2:
+                for h in hops[1:]:
+                    h["path"] += IRI_TAILS[(i // 5 + len(h["path"])) % len(IRI_TAILS)]
             if kind == "chain" and rng.random() < 0.25:
                 # the last hop redirects to a RELATIVE reference: never a gemini:// URL, so it is returned to the caller as it is
                 case["kind"] = "relative"
@@ -480,7 +561,12 @@ class Live(Family):
             logs = []
             for pi, p in enumerate(peers):
                 for e in p.take_log(5.0):
-                    logs.append([e["t"], pi, e["hs"], e["rx"].split(b"\r\n")[0].decode("latin1")])
+                    line = e["rx"].split(b"\r\n")[0]
+                    try:
+                        line = line.decode("utf-8")
+                    except UnicodeDecodeError:
+                        line = line.decode("latin1")
+                    logs.append([e["t"], pi, e["hs"], line])
                 p.clear()
             logs.sort()
             return {"conns": [l[3] for l in logs if l[2]], "tcp": len(logs), "rx_nonempty": [bool(l[3]) for l in logs if l[2]]}
@@ -627,7 +713,8 @@ class Live(Family):
         def seq_ok(g, w):
             # a server that speaks first may have answered (and been hung up on) before the request line left the client
             # (the request line may name the host as the URL spelled it or in lower case)
-            return len(g) == len(w) and all(a == b or fold_host(a) == fold_host(b) or (a == "" and eager[i]) for i, (a, b) in enumerate(zip(g, w)))
+            # (... and may carry a redirect target as it was written or in its URI form: the same resource)
+            return len(g) == len(w) and all(a == b or same_resource(fold_host(a), fold_host(b)) or (a == "" and eager[i]) for i, (a, b) in enumerate(zip(g, w)))
 
         if exp.get("silent"):
             # the hop whose certificate changed must have received no request bytes at all
